@@ -82,7 +82,7 @@ inductive MbRes
   | char (len : Nat) (wc : Nat)     -- > 0: a character of `len` bytes
   | nul                              -- 0: the NUL character
   | invalid                          -- (size_t)-1
-  | incomplete                       -- (size_t)-2 (the code reads it into an `int`: negative)
+  | incomplete                       -- (size_t)-2 (the code reads it into an `int`: -2)
 deriving Repr, DecidableEq
 
 structure Mbs where
@@ -105,7 +105,9 @@ def mbsLoop (mbr : Bytes → MbRes) (hasDst : Bool) (dstlen : Nat) :
         mbsLoop mbr hasDst dstlen f (s.drop len) (off + len) (count + 1) (if hasDst then wc :: w else w)
       | .nul => (some count, none, if hasDst then 0 :: w else w)
       | .invalid => (none, some off, w)
-      | .incomplete => (none, some off, w)
+      -- F43: the input ends inside a character: mbrtowc has taken the bytes into `*ps`; the scan
+      -- stops at the end of the input and the count is returned (POSIX; it was (size_t)-1)
+      | .incomplete => (some count, some (off + s.length), w)
 
 /-- `mbsnrtowcs(dst, &src, srclen, dstlen, ps)`; `dst = none` ⇔ NULL, otherwise its initial
     contents (`dstlen` cells).  With a NULL `dst`, `*src` is left alone (POSIX; repair F27). -/
